@@ -175,6 +175,19 @@ func fuzzDispatcher(r *prng.R, s *out.Sink, dense bool) {
 	membership := map[tss.UniversalID]tss.PartyID{1: 1, 2: 2, 3: 3}
 	idle := newSchemeRig(1, 2, membership, fixedSyncFactory(ids), false)
 	feed("idle-never-used", idle.scheme.HandleMessage)
+	// silent mode: the same with the message buffer in front of the dispatcher, idle and with a signing session open
+	{
+		kgf, sf := factories("bls-hello", 0)
+		m2 := identityMembership(ids)
+		silent := threshold.SilentScheme(1, nopLogger{}, kgf, sf, 2, func(uint8, []byte, []byte, ...uint16) {},
+			func() map[tss.UniversalID]tss.PartyID { return m2 }, func(topic []byte, expected int) []uint16 { return ids[:expected] })
+		feed("silent/idle", silent.HandleMessage)
+		ctx, cancel := context.WithCancel(context.Background())
+		go silent.Sign(ctx, sha([]byte("m")), "DKG") // (its topic hash is the one the fuzz inputs use most)
+		time.Sleep(20 * time.Millisecond)
+		feed("silent/signing", silent.HandleMessage)
+		cancel()
+	}
 	// protocol running
 	ds, err := openDispSession(1, ids, false)
 	if err != nil {
